@@ -363,12 +363,54 @@ def step_strategy(with_insert: bool, max_sub: int = 8):
         (3, st.tuples(st.just("delete_existing_link"), SEL).map(list)),
         (2, st.tuples(st.just("delete_node"), SEL).map(list)),
     ]
-    if with_insert:
-        sub = st.fixed_dictionaries({"root": st.sampled_from(["dfg", "module", "custom"]), "steps": st.lists(step_strategy(False), max_size=max_sub)})
-        alts.append((2, st.tuples(st.just("insert_hugr"), sub, SEL).map(list)))
     from vlib.asts import weighted
 
+    if with_insert:
+        # inserted HUGRs: arbitrary short histories, or add/delete dominated ones in which freed
+        # indices get reused (child order differs from index order, with or without free indices left)
+        churn = weighted(
+            (5, st.tuples(st.just("add_node"), st.sampled_from(OP_POOL), SEL, st.one_of(st.none(), st.integers(0, 3)), META).map(list)),
+            (4, st.tuples(st.just("delete_node"), SEL).map(list)),
+            (1, st.tuples(st.just("add_link"), SEL, st.integers(0, 2), SEL, st.integers(0, 2)).map(list)),
+        )
+        sub_steps = weighted((2, st.lists(step_strategy(False), max_size=max_sub)), (1, st.lists(churn, min_size=4, max_size=12)))
+        sub = st.fixed_dictionaries({"root": st.sampled_from(["dfg", "module", "custom"]), "steps": sub_steps})
+        alts.append((2, st.tuples(st.just("insert_hugr"), sub, SEL).map(list)))
+
     return weighted(*alts)
+
+
+def dense_history_strategy(max_steps: int):
+    """Few nodes, many links on few ports (parallel links between the same pair of ports, several
+    links into one port, order links), then link and node deletions."""
+    from vlib.asts import weighted
+
+    o = st.integers(0, 1)
+    s = st.integers(0, 3)
+    step = weighted(
+        (2, st.tuples(st.just("add_node"), st.sampled_from(["dfg", "custom", "noop", "not"]), s, st.one_of(st.none(), st.integers(0, 2)), st.none()).map(list)),
+        (7, st.tuples(st.just("add_link"), s, o, s, o).map(list)),
+        (2, st.tuples(st.just("add_order_link"), s, s).map(list)),
+        (2, st.tuples(st.just("delete_existing_link"), SEL).map(list)),
+        (1, st.tuples(st.just("delete_link"), s, o, s, o).map(list)),
+        (3, st.tuples(st.just("delete_node"), SEL).map(list)),
+    )
+    return st.fixed_dictionaries({"root": st.sampled_from(["dfg", "module"]), "steps": st.lists(step, min_size=4, max_size=max_steps)})
+
+
+def insert_churn_strategy(max_steps: int):
+    """Hosts and inserted HUGRs that both went through add/delete churn with index reuse."""
+    from vlib.asts import weighted
+
+    churn = weighted(
+        (5, st.tuples(st.just("add_node"), st.sampled_from(OP_POOL), SEL, st.one_of(st.none(), st.integers(0, 3)), META).map(list)),
+        (4, st.tuples(st.just("delete_node"), SEL).map(list)),
+        (1, st.tuples(st.just("add_link"), SEL, st.integers(0, 2), SEL, st.integers(0, 2)).map(list)),
+        (1, st.tuples(st.just("add_order_link"), SEL, SEL).map(list)),
+    )
+    sub = st.fixed_dictionaries({"root": st.sampled_from(["dfg", "module", "custom"]), "steps": st.lists(churn, min_size=3, max_size=12)})
+    step = weighted((3, churn), (2, st.tuples(st.just("insert_hugr"), sub, SEL).map(list)))
+    return st.fixed_dictionaries({"root": st.sampled_from(["module", "dfg"]), "steps": st.lists(step, min_size=2, max_size=max_steps)})
 
 
 def history_strategy(max_steps: int, with_insert: bool = True):
@@ -467,6 +509,18 @@ def apply_valid_mutation(h, step, flags: set):
             return
         h.add_order_link(srcs[ssel % len(srcs)], dsts[dsel % len(dsts)])
         flags.add("order-link")
+    elif kind == "add_raw_order_link":
+        # an order link added as a plain link between the two order ports: not de-duplicated
+        _, ssel, dsel = step
+        srcs = [n for n in live if has_order_port(h, n, "out")]
+        dsts = [n for n in live if has_order_port(h, n, "in")]
+        if not srcs or not dsts:
+            return
+        s, d = srcs[ssel % len(srcs)], dsts[dsel % len(dsts)]
+        if any(True for _ in h.linked_ports(OutPort(s, -1))):
+            flags.add("multi-link")
+        h.add_link(OutPort(s, -1), InPort(d, -1))
+        flags.add("order-link")
     elif kind in ("delete_existing_link", "delete_link"):
         ls = list(h.links())
         if ls:
@@ -491,6 +545,7 @@ def valid_mutations(max_steps=8):
         (1, st.tuples(st.just("add_const"), SEL, META).map(list)),
         (4, st.tuples(st.just("add_link"), SEL, OFF, SEL, OFF).map(list)),
         (2, st.tuples(st.just("add_order_link"), SEL, SEL).map(list)),
+        (2, st.tuples(st.just("add_raw_order_link"), st.integers(0, 2), st.integers(0, 2)).map(list)),
         (2, st.tuples(st.just("delete_existing_link"), SEL).map(list)),
         (3, st.tuples(st.just("delete_node"), SEL).map(list)),
     ]
